@@ -67,6 +67,22 @@ Theorem C04_store_no_phantom_partial : forall e p c ls q limit x,
 Proof. exact store_no_phantom. Qed.
 Print Assumptions C04_store_no_phantom_partial.
 
+(* recover(q) lists the survivors in increasing id (= publication) order, under the EXPLICIT hypothesis that q's ids
+   have one decimal length and are below 2^63 (keys sort as strings; true for ids counted from UnixNano between
+   2001 and 2262) - see C04_recover_order_refuted for what happens otherwise *)
+Theorem C04_recover_order_partial : forall c ls q limit,
+  nof21 (q :: label_names ls) = true ->
+  same_dec_len (ids_for q ls) = true -> forallb id_ok (ids_for q ls) = true ->
+  sorted_ids (fst (ms_recover (fst (ms_run (ms_init Badger true c) ls)) q limit)) = true.
+Proof. exact store_recover_order. Qed.
+Print Assumptions C04_recover_order_partial.
+
+Example C04_recover_order_example :
+  let ls := [MAdd (mk 1700000000000000003 1) qa; MAdd (mk 1700000000000000001 2) qa; MAdd (mk 1700000000000000002 3) (bs "b"); MPersistTick; MKill] in
+  nof21 (qa :: label_names ls) = true /\ same_dec_len (ids_for qa ls) = true /\ forallb id_ok (ids_for qa ls) = true /\
+  map m_id (fst (ms_recover (fst (ms_run (ms_init Badger true true) ls)) qa 0)) = [1700000000000000001; 1700000000000000003].
+Proof. vm_compute. repeat split; reflexivity. Qed.
+
 (* ---- what the faithful model refutes ---- *)
 (* F21: without the name condition a purge of "a" removes the confirmed message of "a.b" *)
 Theorem C04_store_durable_refuted_F21 : exists ls q id,
